@@ -270,3 +270,40 @@ Definition f2dot14 (q : Q) : Z :=
 Definition tentF (D : Z) (t : V.tent) : Z * Z * Z :=
   (f2dot14 (inject_Z (V.tmin t) / inject_Z D), f2dot14 (inject_Z (V.tpeak t) / inject_Z D),
    f2dot14 (inject_Z (V.tmax t) / inject_Z D)).
+
+(* ---- is a glyph kept as a composite?  (fontir ir.rs has_consistent_2x2_transforms /
+        has_overflowing_2x2_transforms, glyph.rs GlyphOrderWork: ConvertToContour) -------------------
+   fontbe is positional: base and 2x2 of component i come from the default source, the offset of
+   component i from components[i] of each source.  fontir therefore keeps a glyph composite only
+   if every source lists the same (base, 2x2) at the same POSITION as the first source it looks at
+   (HashMap order: any source; the relation is an equivalence, so the choice does not matter);
+   otherwise - and when a 2x2 entry leaves [-2, 2], or the glyph also has an outline of its own
+   (PREFER_SIMPLE_GLYPHS, the default) - it is decomposed per source. *)
+Record comp := mkComp { c_base : N; c_2x2 : Q * Q * Q * Q; c_off : pt }.
+
+Definition q4_eqb (a b : Q * Q * Q * Q) : bool :=
+  let '(a1, a2, a3, a4) := a in let '(b1, b2, b3, b4) := b in
+  Qeq_bool a1 b1 && Qeq_bool a2 b2 && Qeq_bool a3 b3 && Qeq_bool a4 b4.
+
+Definition same_shape (a b : comp) : bool := N.eqb (c_base a) (c_base b) && q4_eqb (c_2x2 a) (c_2x2 b).
+
+Fixpoint all2b {A B} (f : A -> B -> bool) (a : list A) (b : list B) : bool :=
+  match a, b with
+  | [], [] => true
+  | x :: a', y :: b' => f x y && all2b f a' b'
+  | _, _ => false
+  end.
+
+Definition has_consistent_components (srcs : list (list comp)) : bool :=
+  match srcs with
+  | [] => true
+  | first :: rest => forallb (fun inst => all2b same_shape first inst) rest
+  end.
+
+Definition in_f2dot14_range (q : Q) : bool := Qle_bool (-2) q && Qle_bool q 2.
+Definition has_overflowing_2x2 (srcs : list (list comp)) : bool :=
+  existsb (existsb (fun c => let '(a, b, c', d) := c_2x2 c in
+                             negb (in_f2dot14_range a && in_f2dot14_range b && in_f2dot14_range c' && in_f2dot14_range d))) srcs.
+
+Definition kept_composite (has_outline : bool) (srcs : list (list comp)) : bool :=
+  has_consistent_components srcs && negb (has_overflowing_2x2 srcs) && negb has_outline.
